@@ -164,11 +164,11 @@ impl<'a> UserCtx<'a> {
             20..=24 => self.op_logout(),
             25..=31 => self.op_update(),
             32..=35 => self.op_delete_account(),
-            36..=55 => self.op_add(),
-            56..=67 => self.op_get(),
-            68..=77 => self.op_list(),
-            78..=87 => self.op_solve(),
-            88..=94 => self.op_delete_problem(),
+            36..=53 => self.op_add(),
+            54..=65 => self.op_get(),
+            66..=73 => self.op_list(),
+            74..=89 => self.op_solve(),
+            90..=95 => self.op_delete_problem(),
             _ => self.op_info(),
         }
     }
@@ -545,6 +545,26 @@ fn audit_db(env: &Env, shared: &Shared, run: u64, replay: &Value) {
         }
         count += 1;
         got_problems.insert((owner, p.get_str("name").unwrap_or("").to_string(), p.get_str("code").unwrap_or("").to_string()));
+    }
+    // no document of one user may carry data derived from another user's problem (results of background
+    // tasks are part of the document): scan every document of this run for foreign markers
+    {
+        let markers = shared.markers.lock().unwrap().clone();
+        let owner_of = |account: &str| models.iter().position(|m| m.accounts.contains_key(account));
+        for p in &problems {
+            let owner = p.get_str("username").unwrap_or("");
+            let Some(uidx) = owner_of(owner) else { continue };
+            let text = format!("{}", p);
+            if let Some((mk, _)) = markers.iter().find(|(mk, u)| **u != uidx && text.contains(mk.as_str())) {
+                shared.violation(
+                    "foreign-data-in-stored-problem",
+                    format!("the stored problem {}/{} of user {} contains marker {} of another user's problem", owner, p.get_str("name").unwrap_or(""), uidx, mk),
+                    replay.clone(),
+                );
+                return;
+            }
+        }
+        shared.count("stored_problems_scanned_for_foreign_markers");
     }
     if got_problems != want_problems || count != want_problems.len() {
         let fmt = |s: &BTreeSet<(String, String, String)>| s.iter().map(|(o, n, c)| format!("{}/{}:{}", o, n, c.chars().take(24).collect::<String>())).collect::<Vec<_>>();
